@@ -326,8 +326,8 @@ Section Reorder.
 
   Lemma containers_same_set : same_set (containers es) (containers es').
   Proof.
-    intros kc. unfold containers. rewrite !in_app_iff, !in_flat_map. unfold range_containers. rewrite !filter_map_In.
-    split; (intros [[e [He Hk]] | [[e [He Hk]] | Hk]]; [left; exists e; split; [apply Hset; exact He|] | right; left; exists e; split; [apply Hset; exact He | exact Hk] | right; right; exact Hk]).
+    intros kc. unfold containers, derived_containers. rewrite !in_app_iff, !in_flat_map. unfold range_containers. rewrite !filter_map_In.
+    split; (intros [[[e [He Hk]] | [e [He Hk]]] | Hk]; [left; left; exists e; split; [apply Hset; exact He|] | left; right; exists e; split; [apply Hset; exact He | exact Hk] | right; exact Hk]).
     - rewrite <- container_of_ext. exact Hk.
     - rewrite container_of_ext. exact Hk.
   Qed.
@@ -402,7 +402,7 @@ Section Renumber.
     unfold same_item, gid_eqb. cbn [rename_item it_id fst snd].
     change (fst (it_id a)) with (crate_of a). change (fst (it_id b)) with (crate_of b).
     change (snd (it_id a)) with (lid a). change (snd (it_id b)) with (lid b).
-    destruct (String.eqb (crate_of a) (crate_of b)) eqn:E; [|reflexivity].
+    destruct (String.eqb (crate_of a) (crate_of b)) eqn:E; [|rewrite !andb_false_r; reflexivity].
     apply String.eqb_eq in E. rewrite E. rewrite rho_eqb. reflexivity.
   Qed.
 
@@ -478,7 +478,7 @@ Section Renumber.
 
   Lemma rn_containers es : containers (rne es) = containers es.
   Proof.
-    unfold containers. f_equal; [|f_equal].
+    unfold containers, derived_containers. f_equal. f_equal.
     - unfold rename_edges at 2. rewrite flat_map_map. apply flat_map_ext_in. intros e _. cbn [fst]. apply rn_container_of.
     - unfold range_containers, rename_edges. rewrite filter_map_map. apply filter_map_ext_in. intros e _.
       cbn [fst snd]. rewrite rn_has_field. reflexivity.
@@ -490,3 +490,372 @@ Section Renumber.
   Theorem format_renumber_invariant es : format (rne es) = format es.
   Proof. unfold format. rewrite rn_containers. reflexivity. Qed.
 End Renumber.
+
+(* ================================================================ variant indices *)
+Lemma pick_In ids cs c : In c (pick ids cs) -> In c cs /\ it_skip c = false /\ In (lid c) ids.
+Proof.
+  unfold pick. rewrite filter_map_In. intros [id [Hid Hf]]. apply find_some in Hf as [Hc Hp].
+  apply andb_prop in Hp as [Hs Hl]. apply N.eqb_eq in Hl. subst id.
+  split; [exact Hc|]. split; [|exact Hid]. destruct (it_skip c); [discriminate | reflexivity].
+Qed.
+
+(* the members of [variants]/[fields] appear in declaration order: their ids are the declared
+   ids, filtered by presence *)
+Lemma pick_decl_order ids cs :
+  map lid (pick ids cs) = filter (fun id => existsb (fun c => negb (it_skip c) && N.eqb id (lid c)) cs) ids.
+Proof.
+  unfold pick. induction ids as [|id ids IH]; cbn [filter_map filter map]; [reflexivity|].
+  destruct (find (fun c => negb (it_skip c) && N.eqb id (lid c)) cs) as [c|] eqn:E.
+  - pose proof (find_some _ _ E) as [Hc Hp].
+    assert (Hex : existsb (fun c => negb (it_skip c) && N.eqb id (lid c)) cs = true) by (apply existsb_exists; exists c; auto).
+    rewrite Hex. cbn [map]. rewrite IH. f_equal. apply andb_prop in Hp as [_ Hl]. apply N.eqb_eq in Hl. congruence.
+  - assert (Hex : existsb (fun c => negb (it_skip c) && N.eqb id (lid c)) cs = false).
+    { destruct (existsb _ cs) eqn:Ex; [|reflexivity]. apply existsb_exists in Ex as [c [Hc Hp]].
+      pose proof (find_none _ _ E _ Hc). cbn in *. congruence. }
+    rewrite Hex. exact IH.
+Qed.
+
+Lemma variants_In x es v : In v (variants x es) ->
+  exists e, In e es /\ snd e = v /\ has_variant (fst e) (snd e) = true.
+Proof.
+  unfold variants. intros H. apply pick_In in H as [H _]. apply children_In in H as [e [He [Hs [_ Hr]]]]. exists e. auto.
+Qed.
+Lemma fields_In x es f : In f (fields x es) ->
+  exists e, In e es /\ snd e = f /\ has_field (fst e) (snd e) = true.
+Proof.
+  unfold fields. intros H. apply pick_In in H as [H _]. apply children_In in H as [e [He [Hs [_ Hr]]]]. exists e. auto.
+Qed.
+
+(* the payloads of an enum container are the formats of [variants] in order *)
+Lemma enum_entries_payload vs es : forall i,
+  map snd (enum_entries i vs es) = filter_map (fun v => variant_fmt v es) vs.
+Proof.
+  induction vs as [|v vs IH]; intros i; cbn [enum_entries filter_map]; [reflexivity|].
+  destruct (variant_fmt v es); cbn [map]; rewrite IH; reflexivity.
+Qed.
+
+Lemma enum_entries_keys vs es : (forall v, In v vs -> variant_fmt v es <> None) ->
+  forall i, keys_from i (enum_entries i vs es) = true.
+Proof.
+  induction vs as [|v vs IH]; intros H i; cbn [enum_entries]; [reflexivity|].
+  destruct (variant_fmt v es) as [nv|] eqn:E; [|exfalso; apply (H v (or_introl eq_refl)); exact E].
+  cbn [keys_from]. rewrite N.eqb_refl. cbn. apply IH. intros w Hw. apply H. right. exact Hw.
+Qed.
+
+Definition wf_variants (es : edges) : Prop :=
+  forall e, In e es -> has_variant (fst e) (snd e) = true ->
+    match it_kind (snd e), it_wire (snd e) with
+    | (KVariantPlain | KVariantTuple _ | KVariantStruct _), Some _ => True
+    | _, _ => False
+    end.
+Definition wf_ranges (es : edges) : Prop :=
+  forall e, In e es -> match it_range (snd e) with Some (CStruct _) | None => True | Some _ => False end.
+
+Lemma wf_edges_variants es : wf_edges es = true -> wf_variants es.
+Proof.
+  unfold wf_edges. intros H. apply andb_prop in H as [H _]. apply andb_prop in H as [H _]. apply andb_prop in H as [_ H].
+  rewrite forallb_forall in H. intros e He Hv. specialize (H e He). rewrite Hv in H. cbn in H.
+  destruct (it_kind (snd e)), (it_wire (snd e)); try discriminate; exact I.
+Qed.
+Lemma wf_edges_ranges es : wf_edges es = true -> wf_ranges es.
+Proof.
+  unfold wf_edges. intros H. apply andb_prop in H as [_ H].
+  rewrite forallb_forall in H. intros e He. specialize (H e He).
+  destruct (it_range (snd e)) as [[]|]; try discriminate; exact I.
+Qed.
+
+Lemma variant_fmt_some es v : wf_variants es ->
+  (exists e, In e es /\ snd e = v /\ has_variant (fst e) (snd e) = true) -> variant_fmt v es <> None.
+Proof.
+  intros Hwf [e [He [Hs Hv]]]. specialize (Hwf e He Hv). rewrite Hs in Hwf. unfold variant_fmt.
+  destruct (it_kind v), (it_wire v); try contradiction; discriminate.
+Qed.
+
+Definition enum_ok (c : container) : Prop := match c with CEnum vs => keys_from 0 vs = true | _ => True end.
+
+Lemma containers_enum_ok es : wf_variants es -> wf_ranges es -> forall kc, In kc (containers es) -> enum_ok (snd kc).
+Proof.
+  intros Hv Hr kc. unfold containers, derived_containers. rewrite !in_app_iff, in_flat_map. unfold range_containers. rewrite filter_map_In.
+  intros [[[e [He Hk]] | [e [He Hk]]] | [Hk|[]]].
+  - unfold container_of in Hk. destruct (it_name (fst e)); [|contradiction].
+    destruct (it_kind (fst e)); try contradiction.
+    + destruct Hk as [Hk|[]]. subst kc. cbn. exact I.
+    + destruct Hk as [Hk|[]]. subst kc. cbn [snd]. destruct (named_fmts (fst e) es); exact I.
+    + destruct Hk as [Hk|[]]. subst kc. cbn [snd]. destruct (plain_fmts (fst e) es) as [|a [|b l]]; exact I.
+    + destruct (children has_variant (fst e) es); [contradiction|]. destruct Hk as [Hk|[]]. subst kc. cbn [snd enum_ok].
+      apply enum_entries_keys. intros v Hin. apply variant_fmt_some; [exact Hv|]. eapply variants_In. exact Hin.
+  - destruct (has_field (fst e) (snd e)); [|discriminate]. specialize (Hr e He).
+    destruct (it_range (snd e)) as [c|]; [|discriminate]. inversion Hk; subst. cbn. destruct c; try contradiction; exact I.
+  - subst kc. exact I.
+Qed.
+
+(* Every enum container of the registry has the keys 0, 1, .., n-1, in this order. *)
+Theorem format_contiguous es : wf_edges es = true -> contiguousb (format es) = true.
+Proof.
+  intros Hwf. unfold contiguousb. apply forallb_forall. intros kc Hin. apply build_In in Hin.
+  pose proof (containers_enum_ok es (wf_edges_variants _ Hwf) (wf_edges_ranges _ Hwf) kc Hin) as H.
+  destruct (snd kc); try reflexivity. exact H.
+Qed.
+
+(* ================================================================ closedness *)
+
+(* a container called [s] is derived from the edges *)
+Definition defines (es : edges) (s : string) : Prop := exists c, In (s, c) (derived_containers es).
+
+(* every type name used by a field that is present names such an item *)
+Definition resolved (es : edges) : Prop :=
+  forall e, In e es -> has_field (fst e) (snd e) = true ->
+  forall s, In s (names_of_item (snd e)) -> defines es s.
+
+Lemma defines_has_key es s : defines es s -> has_key s (format es) = true.
+Proof.
+  intros [c Hc]. unfold format. apply (build_has_key _ s c). unfold containers.
+  apply in_or_app. left. exact Hc.
+Qed.
+
+Lemma plain_fmts_names x es s : In s (flat_map fmt_names (plain_fmts x es)) ->
+  exists f, In f (fields x es) /\ In s (names_of_item f).
+Proof.
+  unfold plain_fmts. rewrite in_flat_map. intros [t [Ht Hs]]. apply filter_map_In in Ht as [f [Hf Hfmt]].
+  exists f. split; [exact Hf|]. unfold names_of_item. rewrite Hfmt. apply in_or_app. left. exact Hs.
+Qed.
+Lemma named_fmts_names x es s : In s (flat_map (fun nf : string * fmt => fmt_names (snd nf)) (named_fmts x es)) ->
+  exists f, In f (fields x es) /\ In s (names_of_item f).
+Proof.
+  unfold named_fmts. rewrite in_flat_map. intros [[n t] [Ht Hs]]. apply filter_map_In in Ht as [f [Hf Hfmt]].
+  exists f. split; [exact Hf|]. unfold names_of_item. destruct (it_wire f); [|discriminate].
+  destruct (it_fmt f); [|discriminate]. inversion Hfmt; subst. apply in_or_app. left. exact Hs.
+Qed.
+
+Lemma tuple_shape_names (l : list fmt) s :
+  In s (container_names (match l with [] => CUnitStruct | [f] => CNewTypeStruct f | a :: b :: r => CTupleStruct (a :: b :: r) end)) ->
+  In s (flat_map fmt_names l).
+Proof. destruct l as [|a [|b l]]; cbn; [intros [] | rewrite app_nil_r; auto | auto]. Qed.
+Lemma vtuple_shape_names (l : list fmt) s :
+  In s (vfmt_names (match l with [] => VUnit | [f] => VNewType f | a :: b :: r => VTuple (a :: b :: r) end)) ->
+  In s (flat_map fmt_names l).
+Proof. destruct l as [|a [|b l]]; cbn; [intros [] | rewrite app_nil_r; auto | auto]. Qed.
+Lemma struct_shape_names (l : list (string * fmt)) s :
+  In s (container_names (match l with [] => CUnitStruct | a :: r => CStruct (a :: r) end)) ->
+  In s (flat_map (fun nf : string * fmt => fmt_names (snd nf)) l).
+Proof. destruct l; cbn; auto. Qed.
+
+Lemma variant_fmt_names v es n vf s : variant_fmt v es = Some (n, vf) -> In s (vfmt_names vf) ->
+  exists f, In f (fields v es) /\ In s (names_of_item f).
+Proof.
+  unfold variant_fmt. destruct (it_wire v); [|discriminate]. destruct (it_kind v); try discriminate; intros H Hs; inversion H; subst.
+  - contradiction.
+  - apply vtuple_shape_names in Hs. apply plain_fmts_names. exact Hs.
+  - cbn in Hs. apply named_fmts_names. exact Hs.
+Qed.
+
+Lemma enum_entries_names vs es s : forall i,
+  In s (flat_map (fun e : N * (string * vfmt) => vfmt_names (snd (snd e))) (enum_entries i vs es)) ->
+  exists v n vf, In v vs /\ variant_fmt v es = Some (n, vf) /\ In s (vfmt_names vf).
+Proof.
+  induction vs as [|v vs IH]; intros i; cbn [enum_entries]; [intros []|].
+  destruct (variant_fmt v es) as [[n vf]|] eqn:E.
+  - cbn [flat_map snd]. rewrite in_app_iff. intros [H|H].
+    + exists v, n, vf. split; [left; reflexivity | split; assumption].
+    + apply IH in H as [w [n' [vf' [Hw Hrest]]]]. exists w, n', vf'. split; [right; exact Hw | exact Hrest].
+  - intros H. apply IH in H as [w [n' [vf' [Hw Hrest]]]]. exists w, n', vf'. split; [right; exact Hw | exact Hrest].
+Qed.
+
+(* every type name in a derived container comes from a field that is present under some item *)
+Lemma container_of_names x es k c s : In (k, c) (container_of x es) -> In s (container_names c) ->
+  exists y f, In f (fields y es) /\ In s (names_of_item f).
+Proof.
+  unfold container_of. destruct (it_name x); [|intros []]. destruct (it_kind x); try contradiction.
+  - intros [H|[]] Hs. inversion H; subst. contradiction.
+  - intros [H|[]] Hs. inversion H; subst. apply struct_shape_names in Hs. apply named_fmts_names in Hs as [f Hf]. exists x, f. exact Hf.
+  - intros [H|[]] Hs. inversion H; subst. apply tuple_shape_names in Hs. apply plain_fmts_names in Hs as [f Hf]. exists x, f. exact Hf.
+  - destruct (children has_variant x es); [intros []|]. intros [H|[]] Hs. inversion H; subst. cbn [container_names] in Hs.
+    apply enum_entries_names in Hs as [v [n [vf [_ [Hv Hs]]]]].
+    destruct (variant_fmt_names _ _ _ _ _ Hv Hs) as [f Hf]. exists v, f. exact Hf.
+Qed.
+
+(* The registry is closed, apart from the reference to [Effect] made by the fixed [Request]
+   container, whenever every type name used by a present field names an item that has a container. *)
+Theorem format_closed es : resolved es -> closed_mod_requestb (format es) = true.
+Proof.
+  intros Hres. unfold closed_mod_requestb. apply forallb_forall. intros [k c] Hin. cbn [fst snd].
+  apply build_In in Hin. unfold containers, derived_containers in Hin. rewrite !in_app_iff in Hin.
+  destruct Hin as [[Hin | Hin] | [Hin|[]]].
+  - apply orb_true_iff. right. apply forallb_forall. intros s Hs.
+    apply in_flat_map in Hin as [e [He Hc]].
+    destruct (container_of_names _ _ _ _ _ Hc Hs) as [y [f [Hf Hn]]].
+    apply fields_In in Hf as [e1 [He1 [Hs1 Hh]]]. subst f.
+    apply defines_has_key. eapply Hres; eassumption.
+  - apply orb_true_iff. right. apply forallb_forall. intros s Hs.
+    unfold range_containers in Hin. apply filter_map_In in Hin as [e [He Hk]].
+    destruct (has_field (fst e) (snd e)) eqn:Hh; [|discriminate].
+    destruct (it_range (snd e)) as [c'|] eqn:Hr; [|discriminate]. inversion Hk; subst.
+    apply defines_has_key. eapply Hres; [exact He | exact Hh |]. unfold names_of_item. rewrite Hr. apply in_or_app. right. exact Hs.
+  - inversion Hin; subst. reflexivity.
+Qed.
+
+Theorem format_closed_full es : resolved es -> defines es "Effect" -> closedb (format es) = true.
+Proof.
+  intros Hres Heff. pose proof (format_closed es Hres) as H. unfold closed_mod_requestb, closedb in *.
+  rewrite forallb_forall in H. apply forallb_forall. intros [k c] Hin. specialize (H _ Hin). cbn [fst snd] in *.
+  apply orb_true_iff in H as [H|H]; [|exact H].
+  apply String.eqb_eq in H. subst k. pose proof Hin as Hin2. apply build_In in Hin2.
+  (* the Request entry of the registry is either the fixed container or a user type called Request *)
+  apply forallb_forall. intros s Hs.
+  unfold containers, derived_containers in Hin2. rewrite !in_app_iff in Hin2. destruct Hin2 as [[Hin2 | Hin2] | [Hin2|[]]].
+  - apply in_flat_map in Hin2 as [e [He Hc]].
+    destruct (container_of_names _ _ _ _ _ Hc Hs) as [y [f [Hf Hn]]].
+    apply fields_In in Hf as [e1 [He1 [Hs1 Hh]]]. subst f. apply defines_has_key. eapply Hres; eassumption.
+  - unfold range_containers in Hin2. apply filter_map_In in Hin2 as [e [He Hk]].
+    destruct (has_field (fst e) (snd e)); [|discriminate]. destruct (it_range (snd e)); discriminate.
+  - inversion Hin2; subst. cbn in Hs. destruct Hs as [Hs|[]]. subst s. apply defines_has_key. exact Heff.
+Qed.
+
+(* a decidable sufficient condition, for regenerated fixtures *)
+
+Lemma definesb_defines es s : definesb es s = true -> defines es s.
+Proof.
+  unfold definesb. intros H. apply existsb_exists in H as [[k c] [Hk H]].
+  apply String.eqb_eq in H. cbn in H. subst k. exists c. exact Hk.
+Qed.
+Lemma resolvedb_resolved es : resolvedb es = true -> resolved es.
+Proof.
+  unfold resolvedb. intros H e He Hh s Hs. rewrite forallb_forall in H. specialize (H e He). rewrite Hh in H. cbn in H.
+  rewrite forallb_forall in H. apply definesb_defines. apply H. exact Hs.
+Qed.
+
+(* ================================================================ the boolean equalities decide equality *)
+Section FmtInd.
+  Variable P : fmt -> Prop.
+  Hypothesis HTn : forall s, P (FTypeName s).
+  Hypothesis HPr : forall p, P (FPrim p).
+  Hypothesis HOp : forall f, P f -> P (FOption f).
+  Hypothesis HSe : forall f, P f -> P (FSeq f).
+  Hypothesis HMa : forall k v, P k -> P v -> P (FMap k v).
+  Hypothesis HTu : forall fs, Forall P fs -> P (FTuple fs).
+  Hypothesis HTa : forall f n, P f -> P (FTupleArray f n).
+  Hypothesis HTo : P FTodo.
+  Fixpoint fmt_ind' (f : fmt) : P f :=
+    match f with
+    | FTypeName s => HTn s
+    | FPrim p => HPr p
+    | FOption x => HOp x (fmt_ind' x)
+    | FSeq x => HSe x (fmt_ind' x)
+    | FMap k v => HMa k v (fmt_ind' k) (fmt_ind' v)
+    | FTuple xs => HTu xs ((fix go (l : list fmt) : Forall P l :=
+                              match l with [] => Forall_nil P | x :: l' => Forall_cons x (fmt_ind' x) (go l') end) xs)
+    | FTupleArray x n => HTa x n (fmt_ind' x)
+    | FTodo => HTo
+    end.
+End FmtInd.
+
+Lemma prim_eqb_eq a b : prim_eqb a b = true -> a = b.
+Proof. destruct a, b; cbn; intros H; try discriminate; reflexivity. Qed.
+
+Lemma fmt_eqb_eq : forall a b, fmt_eqb a b = true -> a = b.
+Proof.
+  induction a using fmt_ind'; intros b; destruct b; cbn [fmt_eqb]; intros Hb; try discriminate.
+  - apply String.eqb_eq in Hb. congruence.
+  - apply prim_eqb_eq in Hb. congruence.
+  - f_equal. apply IHa. exact Hb.
+  - f_equal. apply IHa. exact Hb.
+  - apply andb_prop in Hb as [H1 H2]. f_equal; [apply IHa1 | apply IHa2]; assumption.
+  - f_equal. revert fs0 Hb. induction H as [|x l Hx Hl IH]; intros [|y l'] Hb; try discriminate; [reflexivity|].
+    apply andb_prop in Hb as [H1 H2]. f_equal; [apply Hx; exact H1 | apply IH; exact H2].
+  - apply andb_prop in Hb as [H1 H2]. apply N.eqb_eq in H2. f_equal; [apply IHa; exact H1 | exact H2].
+  - reflexivity.
+Qed.
+
+Lemma list_eqb_eq {A} (eqb : A -> A -> bool) : (forall a b, eqb a b = true -> a = b) ->
+  forall l l', list_eqb eqb l l' = true -> l = l'.
+Proof.
+  intros He. induction l as [|x l IH]; intros [|y l'] H; cbn in H; try discriminate; [reflexivity|].
+  apply andb_prop in H as [H1 H2]. f_equal; [apply He; exact H1 | apply IH; exact H2].
+Qed.
+
+Lemma named_eqb_eq {A} (eqb : A -> A -> bool) : (forall a b, eqb a b = true -> a = b) ->
+  forall p q, named_eqb eqb p q = true -> p = q.
+Proof.
+  intros He [n a] [m b] H. unfold named_eqb in H. cbn in H. apply andb_prop in H as [H1 H2].
+  apply String.eqb_eq in H1. apply He in H2. congruence.
+Qed.
+
+Lemma vfmt_eqb_eq a b : vfmt_eqb a b = true -> a = b.
+Proof.
+  destruct a, b; cbn; intros H; try discriminate; try reflexivity; f_equal.
+  - apply fmt_eqb_eq. exact H.
+  - apply (list_eqb_eq _ fmt_eqb_eq). exact H.
+  - apply (list_eqb_eq _ (named_eqb_eq _ fmt_eqb_eq)). exact H.
+Qed.
+
+Lemma container_eqb_eq a b : container_eqb a b = true -> a = b.
+Proof.
+  destruct a, b; cbn; intros H; try discriminate; try reflexivity; f_equal.
+  - apply fmt_eqb_eq. exact H.
+  - apply (list_eqb_eq _ fmt_eqb_eq). exact H.
+  - apply (list_eqb_eq _ (named_eqb_eq _ fmt_eqb_eq)). exact H.
+  - revert H. apply list_eqb_eq. intros [i p] [j q] H. cbn in H. apply andb_prop in H as [H1 H2].
+    apply N.eqb_eq in H1. apply (named_eqb_eq _ vfmt_eqb_eq) in H2. congruence.
+Qed.
+
+Theorem registry_eqb_eq a b : registry_eqb a b = true -> a = b.
+Proof. apply list_eqb_eq. apply named_eqb_eq. apply container_eqb_eq. Qed.
+
+(* a decidable form of [unambiguous] and of [fun_ids], for regenerated fixtures *)
+
+Lemma unambiguousb_sound l : unambiguousb l = true -> unambiguous l.
+Proof.
+  unfold unambiguousb. intros H k v v' H1 H2. rewrite forallb_forall in H. specialize (H _ H1).
+  rewrite forallb_forall in H. specialize (H _ H2). cbn in H. rewrite String.eqb_refl in H. cbn in H.
+  apply container_eqb_eq. exact H.
+Qed.
+
+Lemma opt_str_eq (a b : option string) :
+  match a, b with Some s, Some t => String.eqb s t | None, None => true | _, _ => false end = true -> a = b.
+Proof. destruct a, b; intros H; try discriminate; [apply String.eqb_eq in H; congruence | reflexivity]. Qed.
+
+Lemma item_eqb_eq a b : item_eqb_shallow a b = true -> a = b.
+Proof.
+  destruct a as [i1 n1 k1 s1 w1 f1 r1], b as [i2 n2 k2 s2 w2 f2 r2]. unfold item_eqb_shallow. cbn [it_id it_name it_kind it_skip it_wire it_fmt it_range].
+  intros H. do 6 (apply andb_prop in H as [H ?]).
+  assert (i1 = i2).
+  { destruct i1, i2. unfold gid_eqb in H. cbn in H. apply andb_prop in H as [Hb Ha]. apply String.eqb_eq in Ha. apply N.eqb_eq in Hb. congruence. }
+  assert (n1 = n2) by (apply opt_str_eq; assumption).
+  assert (s1 = s2) by (apply Bool.eqb_prop; assumption).
+  assert (w1 = w2) by (apply opt_str_eq; assumption).
+  assert (f1 = f2) by (destruct f1, f2; try discriminate; [f_equal; apply fmt_eqb_eq; assumption | reflexivity]).
+  assert (r1 = r2) by (destruct r1, r2; try discriminate; [f_equal; apply container_eqb_eq; assumption | reflexivity]).
+  assert (k1 = k2).
+  { destruct k1, k2; try discriminate; try reflexivity; f_equal; apply (list_eqb_eq N.eqb); try assumption; intros x y Hxy; apply N.eqb_eq; exact Hxy. }
+  congruence.
+Qed.
+
+Lemma wf_edges_fun_ids es : wf_edges es = true -> fun_ids es.
+Proof.
+  unfold wf_edges. intros H. do 4 (apply andb_prop in H as [H _]).
+  intros a b Ha Hb Hs. rewrite forallb_forall in H. specialize (H a Ha). rewrite forallb_forall in H. specialize (H b Hb).
+  rewrite Hs in H. cbn in H. apply item_eqb_eq. exact H.
+Qed.
+
+Lemma fun_ids_rename rho es : (forall c a b, rho c a = rho c b -> a = b) -> fun_ids es -> fun_ids (rename_edges rho es).
+Proof.
+  intros Hinj Hf a b Ha Hb Hs. apply items_of_In in Ha as [e [He Ha]]. apply items_of_In in Hb as [e' [He' Hb]].
+  unfold rename_edges in He, He'. apply in_map_iff in He as [e0 [E0 He0]]. apply in_map_iff in He' as [e1 [E1 He1]].
+  subst e e'. cbn [fst snd] in Ha, Hb.
+  assert (Hx : exists x, a = rename_item rho x /\ In x (items_of es)).
+  { destruct Ha as [Ha|Ha]; [exists (fst e0) | exists (snd e0)]; (split; [exact Ha|]); apply items_of_In; exists e0; auto. }
+  assert (Hy : exists y, b = rename_item rho y /\ In y (items_of es)).
+  { destruct Hb as [Hb|Hb]; [exists (fst e1) | exists (snd e1)]; (split; [exact Hb|]); apply items_of_In; exists e1; auto. }
+  destruct Hx as [x [-> Hx]]. destruct Hy as [y [-> Hy]].
+  rewrite (rn_same_item rho Hinj) in Hs. f_equal. apply Hf; assumption.
+Qed.
+
+(* purity: renumber the ids, then list the edges in any order *)
+Theorem format_pure rho es es' :
+  (forall c a b, rho c a = rho c b -> a = b) -> fun_ids es -> unambiguous (containers es) ->
+  Permutation (rename_edges rho es) es' -> format es' = format es.
+Proof.
+  intros Hinj Hf Hu HP. rewrite <- (format_renumber_invariant rho Hinj es). symmetry.
+  apply format_perm_invariant; [exact HP | apply fun_ids_rename; assumption |].
+  rewrite (rn_containers rho Hinj). exact Hu.
+Qed.
